@@ -102,8 +102,6 @@ def bead_sample(spec):
     names = ['FSC-H', 'SSC-H'] + list(spec.get('names') or ['FL%d-H' % (c + 1) for c in range(nch)]) + ['Time']
     D = nch + 3
     extra = [('$TIMESTEP', '0.1')] + [('$P%dV' % (k + 3), str(500 + 25 * k)) for k in range(nch)]
-    if spec.get('no_voltage'):               # the optional $PnV keywords are not recorded at all
-        extra = [('$TIMESTEP', '0.1')]
     if spec.get('container', 'int') == 'int':
         events = []
         for t, r in enumerate(rows):
@@ -161,6 +159,8 @@ def cell_sample(spec):
         extra = [('$TIMESTEP', '0.1')] + [('$P%dV' % (k + 3), str(500 + 25 * k + spec['voltage_shift'])) for k in range(nch)]
     if spec.get('voltages'):                 # detector voltage per fluorescence parameter, in file order
         extra = [('$TIMESTEP', '0.1')] + [('$P%dV' % (k + 3), str(v)) for k, v in enumerate(spec['voltages'])]
+    if spec.get('no_voltage'):               # the optional $PnV keywords are not recorded at all
+        extra = [('$TIMESTEP', '0.1')]
     if spec.get('container', 'int') == 'int':
         events = []
         for t, r in enumerate(rows):
